@@ -25,6 +25,9 @@ type Trig struct {
 	Edge       bool  `json:"edge,omitempty"`
 	Auto       bool  `json:"auto,omitempty"`
 	AutoFrames int   `json:"autoframes,omitempty"` // auto-trigger delay in frames
+	EMT        bool  `json:"emt,omitempty"`        // edge-multi trigger (exclusive of the others)
+	EMTMode    int   `json:"emtmode,omitempty"`    // 0 two full-length, 1 variable length, 2 full-length isolated
+	EMTZero    bool  `json:"emtzero,omitempty"`    // kink-model refinement on (needs npre >= 4 and nsamp-npre >= 4)
 }
 
 type Op struct {
@@ -54,6 +57,7 @@ type Case struct {
 	// (taken from a run of the same data without any connection)
 	CrashAt    *int      `json:"crash_at,omitempty"`
 	CrashPrims [][]int64 `json:"crash_prims,omitempty"`
+	deferBias  bool      // generator only: channel 0 is an edge-multi source, aim pulses at its deferral window
 }
 
 const periodNs = 10000 // 100 kHz
@@ -100,6 +104,13 @@ func newBench(c Case) (bench, error) {
 
 func applyTrig(ds *dastard.AnySource, t Trig, nsamp int) {
 	ts := dastard.TriggerState{}
+	if t.EMT {
+		e, err := dastard.VerifEMTTriggerState(1500, 1, t.EMTMode, t.EMTZero)
+		if err != nil {
+			panic(err)
+		}
+		ts = e
+	}
 	if t.Level {
 		ts.LevelTrigger, ts.LevelRising, ts.LevelLevel = true, true, 2000
 	}
@@ -290,8 +301,14 @@ func runCase(c Case) lib.Result {
 			panic("decimation is on")
 		}
 	}
+	emt := make([]bool, c.Nchan)
 	for _, t := range c.Trigs {
 		applyTrig(ds, t, c.Nsamp)
+		for _, ch := range t.Chans {
+			if ch >= 0 && ch < c.Nchan {
+				emt[ch] = t.EMT
+			}
+		}
 	}
 	signed := signedOf(c)
 	var terms []string
@@ -351,6 +368,19 @@ loop:
 			if o.Trig != nil {
 				applyTrig(ds, *o.Trig, c.Nsamp)
 				tags["trigger-change-midway"] = true
+				if o.Trig.EMT {
+					for _, ch := range o.Trig.Chans {
+						if ch >= 0 && ch < c.Nchan {
+							emt[ch] = true
+						}
+					}
+				} else {
+					for _, ch := range o.Trig.Chans {
+						if ch >= 0 && ch < c.Nchan {
+							emt[ch] = false
+						}
+					}
+				}
 			}
 			continue // not part of the modelled history: it only influences which primaries fire
 		case "add", "del":
@@ -502,6 +532,17 @@ loop:
 				fired := 0
 				var union []int64
 				for p := range intended {
+					if p[1] == ch && len(r.Primaries[p[0]]) > 0 && emt[p[0]] {
+						tags["secondary-from-edge-multi-source"] = true
+						if !emt[ch] {
+							tags["edge-multi-source-other-receiver"] = true
+						}
+						for _, f := range r.Primaries[p[0]] {
+							if f+int64(c.Nsamp-c.Npre) <= first {
+								tags["secondary-from-deferred-edge-multi-primary"] = true
+							}
+						}
+					}
 					if p[1] == ch && len(r.Primaries[p[0]]) > 0 {
 						fired++
 						union = append(union, r.Primaries[p[0]]...)
@@ -694,6 +735,13 @@ func corpus() []Case {
 			Ops: []Op{{Op: "couple", Status: 2}, {Op: "del", Conn: [][]int{{1, 0}}}, {Op: "couple", Status: 2}, cy(40, nil, []int{20}),
 				{Op: "couple", Status: 3}, {Op: "stop"}, {Op: "couple", Status: 3}, cy(40, []int{10}, nil),
 				{Op: "couple", Status: 1}, {Op: "add", Conn: [][]int{{0, 1}}}, {Op: "couple", Status: 1, ViaFB: true}, cy(40, []int{10}, nil)}},
+		// edge-multi sources feeding receivers with other (or no) trigger settings; pulses where edge-multi defers the
+		// record to the next block: the receiver must still hold those samples
+		{Nchan: 3, Npre: 8, Nsamp: 20, F0: 2000, Trigs: []Trig{{Chans: []int{0}, EMT: true, EMTMode: 0}, lvl(2)},
+			Ops: []Op{{Op: "add", Conn: [][]int{{0, 1, 2}}}, cy(60, []int{33}, nil, nil), cy(60, []int{5, 29}, nil, []int{5}),
+				cy(3, nil, nil, nil), cy(4, nil, nil, nil), cy(60, []int{36}, nil, nil), cy(45, nil, nil, nil)}},
+		{Nchan: 2, Npre: 4, Nsamp: 9, F0: 0, Trigs: []Trig{{Chans: []int{0}, EMT: true, EMTMode: 1, EMTZero: true}},
+			Ops: []Op{{Op: "add", Conn: [][]int{{0, 1}}}, cy(40, []int{12, 26}, nil), cy(40, []int{28}, nil), cy(40, []int{22, 31}, nil), cy(20, nil, nil)}},
 		// auto triggers: every source fires at the same frames
 		{Nchan: 3, Npre: 3, Nsamp: 6, F0: 10, Trigs: []Trig{{Chans: []int{0, 1}, Auto: true, AutoFrames: 9}},
 			Ops: []Op{{Op: "add", Conn: [][]int{{0, 2}, {1, 2}, {1, 0}}}, cy(25), cy(1), cy(2), cy(25), {Op: "del", Conn: [][]int{{1, 2}}}, cy(25)}},
@@ -739,12 +787,18 @@ func randCycle(r *lib.Rng, c *Case, fired *bool) Op {
 	shared := []int{r.Intn(n)} // a position several channels may share, so that frames coincide
 	for ch := 0; ch < c.Nchan; ch++ {
 		var ps []int
-		switch r.Intn(6) {
+		k := r.Intn(6)
+		if c.deferBias && ch == 0 && r.Chance(2, 3) {
+			k = 4
+		}
+		switch k {
 		case 0: // nothing
 		case 1: // near the end of the block: found in the next cycle, inside the retained history
 			ps = append(ps, n-post+r.Range(-2, 2))
 		case 2: // near the start
 			ps = append(ps, r.Range(0, 2))
+		case 4: // where an edge-multi source finds the trigger now but cuts the record in the next block
+			ps = append(ps, n-post-r.Range(0, c.Nsamp))
 		case 3:
 			ps = append(ps, shared...)
 		default:
@@ -768,6 +822,11 @@ func genCase(r *lib.Rng, id int64, tier string) Case {
 	c := Case{ID: id}
 	c.Npre = r.Range(3, 7)
 	c.Nsamp = c.Npre + r.Range(1, 8)
+	long := r.Chance(1, 4) // long records: the deferred edge-multi window (nsamp wide) exceeds any fixed margin
+	if long {
+		c.Npre = r.Range(4, 10)
+		c.Nsamp = c.Npre + r.Range(6, 16)
+	}
 	c.F0 = int64(r.Pick([]int{0, 0, 1, 100, 5000, 1 << 20, 1 << 33}))
 	if r.Chance(1, 4) {
 		c.Lancero = true
@@ -799,17 +858,43 @@ func genCase(r *lib.Rng, id int64, tier string) Case {
 			c.Trigs = append(c.Trigs, Trig{Chans: []int{ch}, Auto: true, AutoFrames: r.Range(c.Nsamp, 3*c.Nsamp)})
 		case 3:
 			c.Trigs = append(c.Trigs, Trig{Chans: []int{ch}, Level: true, Edge: true})
+		case 4, 5:
+			// edge-multi source: it may defer a record to the next block ("around the corner")
+			zero := c.Npre >= 4 && c.Nsamp-c.Npre >= 4 && r.Chance(1, 3)
+			c.Trigs = append(c.Trigs, Trig{Chans: []int{ch}, EMT: true, EMTMode: r.Intn(3), EMTZero: zero})
 		default:
 			c.Trigs = append(c.Trigs, Trig{Chans: []int{ch}, Level: true})
 		}
+	}
+	if long && c.Nchan >= 2 && !c.Lancero && r.Chance(2, 3) {
+		// an edge-multi source feeding every other channel, whatever their own settings
+		c.deferBias = true
+		var tr []Trig
+		for _, t := range c.Trigs {
+			if t.Chans[0] != 0 {
+				tr = append(tr, t)
+			}
+		}
+		c.Trigs = append(tr, Trig{Chans: []int{0}, EMT: true, EMTMode: r.Intn(3)})
+		e := []int{0}
+		for rx := 1; rx < c.Nchan; rx++ {
+			e = append(e, rx)
+		}
+		c.Ops = append(c.Ops, Op{Op: "add", Conn: [][]int{e}})
 	}
 	malformed := r.Chance(1, 3)
 	nops := r.Range(4, 11)
 	ncyc := 0
 	maxcyc := 5
+	if long {
+		maxcyc = 3
+	}
 	if tier == "thorough" {
 		nops = r.Range(4, 30)
 		maxcyc = 12
+		if long {
+			maxcyc = 6
+		}
 	}
 	fired := false
 	for i := 0; i < nops; i++ {
@@ -846,7 +931,11 @@ func genCase(r *lib.Rng, id int64, tier string) Case {
 			c.Ops = append(c.Ops, Op{Op: "add", Conn: conn})
 		default:
 			ch := r.Intn(c.Nchan)
-			c.Ops = append(c.Ops, Op{Op: "trig", Trig: &Trig{Chans: []int{ch}, Level: true}})
+			if r.Chance(1, 3) {
+				c.Ops = append(c.Ops, Op{Op: "trig", Trig: &Trig{Chans: []int{ch}, EMT: true, EMTMode: r.Intn(3)}})
+			} else {
+				c.Ops = append(c.Ops, Op{Op: "trig", Trig: &Trig{Chans: []int{ch}, Level: true}})
+			}
 		}
 	}
 	if c.Lancero && r.Chance(1, 2) {
